@@ -342,6 +342,16 @@ def run(chk, ctx):
                    site='pamqp/encode.py::timestamp')
         for cons, okk, why in tsrules.timestamp_decode_rule(ctx):
             chk.ob('C02.T', cons, okk, why, site='pamqp/decode.py::timestamp')
+    # the headers property: field names are written whole (a key cut short
+    # comes back as a different key, so the property set differs)
+    if 'table' in types.values():
+        from .. import tsrules
+        for cons, okk, why in tsrules.table_key_rule(ctx):
+            if okk is not None:
+                chk.ob('C02.T', cons, okk, why,
+                       detail={'documented_exception': 'only keys longer '
+                               'than 128 characters are truncated'},
+                       site='pamqp/encode.py::field_table')
     chk.assume('header tables round-trip as decided by C03')
     chk.units['properties'] = len(slots)
 
